@@ -817,7 +817,6 @@ func c16Algebra(r *Report, p *Prog, P, N *big.Int) {
 	}
 }
 
-
 // fiatDelegates: the primitive does nothing but call another primitive of its family in a way that realises its own
 // contract: Opp(out, a) = Sub(out, &zero, a) with zero a local that is never written, Square(out, a) = Mul(out, a, a).
 // Returns the callee's short name ("Sub", "Mul") or "".
